@@ -6,7 +6,9 @@ import semprop
 def cfgs(tier):
     deep = tier != "quick"
     return [(2, gen_prog.Cfg(slices=True, strops=True, funcs=True, max_depth=3 if not deep else 4, max_nest=3)),
-            (1, gen_prog.Cfg(slices=True, strops=True, max_depth=3, max_nest=2, panic=False))]
+            (1, gen_prog.Cfg(slices=True, strops=True, max_depth=3, max_nest=2, panic=False)),
+            # element values that a careless helper routine would mangle: blanks (leading, repeated), option look-alikes, globs
+            (1, gen_prog.Cfg(slices=True, strops=True, funcs=True, max_depth=2, max_nest=2, panic=False, alphabet="an eE-*#~'  ;"))]
 
 
 def run(res, b, tier, seed):
